@@ -389,6 +389,16 @@ fn check(c: &Case, obs: &mut Obs) -> Verdict {
             obs.class_if(!want.ignored.is_empty(), "ignore-carried");
         }
     }
+    // flatten_and_rewrite with the default options is flatten() followed by rewrite()
+    if let Ok(fm) = &flat {
+        let opts = sourcemap::RewriteOptions::default();
+        let direct = guard(|| smi.clone().flatten_and_rewrite(&opts).map(|m| obs_map(&m)).map_err(|e| e.to_string()));
+        let two_steps = guard(|| fm.clone().rewrite(&opts).map(|m| obs_map(&m)).map_err(|e| e.to_string()));
+        match (direct, two_steps) {
+            (Ok(Ok(a)), Ok(Ok(b))) => ensure_eq!(a, b, "flatten_and_rewrite(default options) differs from flatten() then rewrite()"),
+            (a, b) => return Verdict::Fail(format!("flatten_and_rewrite / flatten+rewrite on a fully resolved index: {:?} / {:?}", a.map(|r| r.map(|_| ())), b.map(|r| r.map(|_| ())))),
+        }
+    }
     // lookups
     let flat_ref = expected.as_ref().ok();
     let as_decoded = DecodedMap::Index(smi.clone());
